@@ -14,7 +14,9 @@ def run_one(patch, pid, tests=None, tier='quick', jobs=None):
     d = tempfile.mkdtemp(prefix='vmut_', dir='/tmp')
     try:
         subprocess.run(['rsync', '-a', '--exclude', '.git', '/repo/', d + '/'], check=True)
-        p = subprocess.run(['patch', '-p1', '--no-backup-if-mismatch', '-i', os.path.abspath(patch)], cwd=d, capture_output=True, text=True)
+        p = subprocess.run(['patch', '-p1', '--no-backup-if-mismatch', '--dry-run', '-i', os.path.abspath(patch)], cwd=d, capture_output=True, text=True)
+        strip = '-p1' if p.returncode == 0 else '-p0'        # the builders' mutants are written relative to the repository root
+        p = subprocess.run(['patch', strip, '--no-backup-if-mismatch', '-i', os.path.abspath(patch)], cwd=d, capture_output=True, text=True)
         if p.returncode != 0:
             return dict(patch=patch, applied=False, msg=p.stdout[-300:] + p.stderr[-300:])
         res = dict(patch=os.path.relpath(patch, HERE), property=pid, applied=True)
